@@ -1,8 +1,9 @@
 """Concrete oracle for C16 (real, un-shadowed code; real threads; stdlib + celpy only, no z3).
 
 Documented threading contract = one Environment + program per thread.  `forced_schedule` runs every thread's workload
-alone (solo outcome), then runs all of them concurrently while per-thread `sys.settrace` gates force the given order
-of source lines, and compares each thread's outcomes with its solo outcomes.  Gating only ever *delays* a thread at a
+alone (solo outcome), then runs all of them concurrently while line-event gates (sys.monitoring LINE events, i.e. the
+3.12 mechanism underneath sys.settrace, restricted to celpy code so that Lark runs untraced) force the given order of
+source lines, and compares each thread's outcomes with its solo outcomes.  Gating only ever *delays* a thread at a
 line boundary, so whatever the forced run returns is the outcome of a legitimate interleaving of the real code.
 
 A schedule entry is {"t": thread#, "file": basename, "func": qualname, "line": <stripped source text> | <int>,
@@ -33,9 +34,51 @@ def celpy_mod():
     return celpy
 
 
-def traced(code):
+def traced(code, frame):
+    """celpy source files, and "<string>" code reached from them (the transpiled program, its lambdas)"""
     fn = code.co_filename
-    return fn == "<string>" or fn.startswith(SRC) or os.path.realpath(fn).startswith(SRC)
+    if fn != "<string>":
+        return fn.startswith(SRC) or os.path.realpath(fn).startswith(SRC)
+    f = frame.f_back
+    while f is not None and f.f_code.co_filename == "<string>":
+        f = f.f_back
+    return f is not None and traced(f.f_code, f)
+
+
+class Monitor:
+    """sys.monitoring (PEP 669) session delivering LINE (and optionally INSTRUCTION) events for traced code only;
+    every other code object is switched off at its first PY_START, so Lark etc. run at full speed."""
+    TOOL = 3
+
+    def __init__(self, on_line, on_instruction=None):
+        self.on_line, self.on_instruction, self.codes = on_line, on_instruction, {}   # id -> code (equal code objects differ)
+
+    def _start(self, code, offset):
+        if id(code) not in self.codes and traced(code, sys._getframe(1)):
+            E = sys.monitoring.events
+            self.codes[id(code)] = code
+            sys.monitoring.set_local_events(self.TOOL, code, E.LINE | (E.INSTRUCTION if self.on_instruction else 0))
+        return sys.monitoring.DISABLE
+
+    def __enter__(self):
+        m, E = sys.monitoring, sys.monitoring.events
+        m.use_tool_id(self.TOOL, "vf.c16")
+        m.register_callback(self.TOOL, E.PY_START, self._start)
+        m.register_callback(self.TOOL, E.LINE, lambda code, line: self.on_line(sys._getframe(1), code, line))
+        if self.on_instruction:
+            m.register_callback(self.TOOL, E.INSTRUCTION, lambda code, off: self.on_instruction(sys._getframe(1), code, off))
+        m.set_events(self.TOOL, E.PY_START)
+        m.restart_events()
+        return self
+
+    def __exit__(self, *exc):
+        m, E = sys.monitoring, sys.monitoring.events
+        m.set_events(self.TOOL, 0)
+        for code in self.codes.values():
+            m.set_local_events(self.TOOL, code, 0)
+        for ev in (E.PY_START, E.LINE, E.INSTRUCTION):
+            m.register_callback(self.TOOL, ev, None)
+        m.free_tool_id(self.TOOL)
 
 
 _keys = {}
@@ -186,6 +229,7 @@ class Gates:
         self.wanted = {t: {e[1] for e in self.sched if e[0] == t} for t in range(nthreads)}
         self.broken_at = None
         self.order = []
+        self.threads = {}
 
     def _advance(self):
         while self.ptr < len(self.sched) and (self.status[self.ptr] in ("done", "skipped") or
@@ -234,15 +278,10 @@ class Gates:
             self.finished[t] = True
             self._advance()
 
-    def tracer(self, t):
-        def local(frame, event, arg):
-            if event == "line":
-                self.line(t, frame.f_code, frame.f_lineno)
-            return local
-
-        def glob(frame, event, arg):
-            return local if traced(frame.f_code) else None
-        return glob
+    def on_line(self, frame, code, lineno):
+        t = self.threads.get(threading.get_ident())
+        if t is not None:
+            self.line(t, code, lineno)
 
 
 def run_forced(runner, programs, bindings, schedule, evals=1, state=None):
@@ -257,17 +296,17 @@ def run_forced(runner, programs, bindings, schedule, evals=1, state=None):
     def body(t):
         fn = workload(runner, programs[t], bindings[t], evals)
         start.wait()
-        sys.settrace(g.tracer(t))
+        g.threads[threading.get_ident()] = t
         try:
             res[t] = fn()
         finally:
-            sys.settrace(None)
             g.end(t)
     ths = [threading.Thread(target=body, args=(t,), daemon=True) for t in range(n)]
-    for th in ths:
-        th.start()
-    for th in ths:
-        th.join(WAIT_S * (len(schedule) + 2))
+    with Monitor(g.on_line):
+        for th in ths:
+            th.start()
+        for th in ths:
+            th.join(WAIT_S * (len(schedule) + 2))
     state.restore()
     return res, g
 
